@@ -45,4 +45,10 @@ TEXT = {
         "level_note": TRUST + " Exhaustive only up to the stated length per character class; beyond it sampled.",
         "technique": "bounded exhaustive enumeration + property-based differential testing against an independent recogniser (rapid)",
     },
+    "C03": {
+        "level_text": "Robustness property-based testing / fuzzing: hostile and grammar-derived spec strings x hostile and pumped argument vectors x every subset of env-backed options run through the public API in an isolated, journaled, stack-capped, deadline-watched worker; the outcome must be exactly one documented kind (positioned spec error, acceptance, usage error, help) and the worker must stay alive and answer.",
+        "design_ref": "DESIGN.md sections 2.4 and 5 (C03)",
+        "level_note": TRUST + " Absence of hangs is judged by a deadline three to four orders of magnitude above the normal cost and confirmed in fresh processes; a non-reproducible death is reported as inconclusive (exit 2), never as a violation.",
+        "technique": "property-based robustness testing (rapid) with process-level crash/hang detection and journal replay; native go fuzzing in the thorough tier",
+    },
 }
